@@ -209,3 +209,87 @@ pub fn noise(k: usize) {
     });
     crate::util::clear_hooks();
 }
+
+/// Values that read the same as `bytes` when every unit (a byte, or a 32-bit word in either byte order) is printed WITHOUT
+/// zero padding (hexadecimal or decimal) and the pieces are concatenated, but are different values: the digits of two
+/// neighbouring units regrouped.  A comparison made on such a rendering cannot tell them apart.
+pub fn regroup_variants(bytes: &[u8]) -> Vec<Vec<u8>> {
+    fn resplit(sa: &str, sb: &str, radix: u32, max: u64) -> Vec<(u64, u64)> {
+        let s = format!("{}{}", sa, sb);
+        let mut out = vec![];
+        for cut in 1..s.len() {
+            let (x, y) = s.split_at(cut);
+            if (x.len() > 1 && x.starts_with('0')) || (y.len() > 1 && y.starts_with('0')) {
+                continue;
+            }
+            if let (Ok(a), Ok(b)) = (u64::from_str_radix(x, radix), u64::from_str_radix(y, radix)) {
+                if a <= max && b <= max && cut != sa.len() {
+                    out.push((a, b));
+                }
+            }
+        }
+        out
+    }
+    let mut out: Vec<Vec<u8>> = vec![];
+    // neighbouring bytes
+    for i in 0..bytes.len().saturating_sub(1) {
+        for radix in [16u32, 10] {
+            let (sa, sb) = if radix == 16 { (format!("{:x}", bytes[i]), format!("{:x}", bytes[i + 1])) } else { (bytes[i].to_string(), bytes[i + 1].to_string()) };
+            for (a, b) in resplit(&sa, &sb, radix, 255) {
+                let mut v = bytes.to_vec();
+                v[i] = a as u8;
+                v[i + 1] = b as u8;
+                out.push(v);
+            }
+        }
+    }
+    // neighbouring 32-bit words, big and little endian
+    if bytes.len() % 4 == 0 {
+        for be in [true, false] {
+            let words: Vec<u32> = bytes.chunks(4).map(|c| if be { u32::from_be_bytes([c[0], c[1], c[2], c[3]]) } else { u32::from_le_bytes([c[0], c[1], c[2], c[3]]) }).collect();
+            for i in 0..words.len().saturating_sub(1) {
+                for (a, b) in resplit(&format!("{:x}", words[i]), &format!("{:x}", words[i + 1]), 16, u32::MAX as u64) {
+                    let mut v = bytes.to_vec();
+                    let (wa, wb) = if be { ((a as u32).to_be_bytes(), (b as u32).to_be_bytes()) } else { ((a as u32).to_le_bytes(), (b as u32).to_le_bytes()) };
+                    v[4 * i..4 * i + 4].copy_from_slice(&wa);
+                    v[4 * i + 4..4 * i + 8].copy_from_slice(&wb);
+                    out.push(v);
+                }
+            }
+        }
+    }
+    out.retain(|v| v != bytes);
+    out.sort();
+    out.dedup();
+    out
+}
+
+// ---- 256-bit little-endian helpers (only used to CHOOSE inputs near a value the library computes; never as an oracle)
+pub fn le_cmp(a: &[u8; 32], b: &[u8; 32]) -> std::cmp::Ordering {
+    for i in (0..32).rev() {
+        if a[i] != b[i] { return a[i].cmp(&b[i]); }
+    }
+    std::cmp::Ordering::Equal
+}
+pub fn le_add(a: &[u8; 32], b: &[u8; 32]) -> ([u8; 32], bool) {
+    let mut o = [0u8; 32];
+    let mut c = 0u16;
+    for i in 0..32 { let t = a[i] as u16 + b[i] as u16 + c; o[i] = t as u8; c = t >> 8; }
+    (o, c != 0)
+}
+pub fn le_sub(a: &[u8; 32], b: &[u8; 32]) -> ([u8; 32], bool) {
+    let mut o = [0u8; 32];
+    let mut br = 0i16;
+    for i in 0..32 { let t = a[i] as i16 - b[i] as i16 - br; if t < 0 { o[i] = (t + 256) as u8; br = 1; } else { o[i] = t as u8; br = 0; } }
+    (o, br != 0)
+}
+/// (a + b) mod n for a, b < n < 2^256
+pub fn le_add_mod(a: &[u8; 32], b: &[u8; 32], n: &[u8; 32]) -> [u8; 32] {
+    let (s, carry) = le_add(a, b);
+    if carry || le_cmp(&s, n) != std::cmp::Ordering::Less { le_sub(&s, n).0 } else { s }
+}
+/// (a - b) mod n for a, b < n
+pub fn le_sub_mod(a: &[u8; 32], b: &[u8; 32], n: &[u8; 32]) -> [u8; 32] {
+    let (d, borrow) = le_sub(a, b);
+    if borrow { le_add(&d, n).0 } else { d }
+}
